@@ -4,6 +4,7 @@
    rebuilt from the scroll records. *)
 let oracle_c01 (line : string) : string =
   let (c, o) = split_case_obs line in
+  if String.length o >= 3 && (String.sub o 0 3 = "CRA" || String.sub o 0 3 = "ERR" || String.sub o 0 3 = "FAU") then "BAD the implementation crashed or the observation is malformed" else
   let _ = parse_case c in
   let recs = parse_obs o in
   let app = ref app_base in
